@@ -46,7 +46,7 @@ def run(tier, seed):
             for k, v in e['rejected'].items():
                 rejected[k] = rejected.get(k, 0) + v
             if ev == 'alias_exhaustive':
-                exh.append({k: e[k] for k in ('wt', 'profile', 'maxlen', 'vectors', 'built')})
+                exh.append({k: e.get(k) for k in ('wt', 'profile', 'maxlen', 'vectors', 'invalid_injected', 'built')})
             else:
                 adv += e['adv_execs']
                 maxlen = max(maxlen, e['max_len'])
